@@ -2,23 +2,30 @@
 (* C13 - alru_cache, acached_per_instance and alazy_constant behave like their reference cache.
 
    This module IS the reference cache.  A configuration (decorator, plain function or method, default key or a
-   key_fn that ignores parameter b, maxsize, plain or batch-blocking body, call alphabet, history depth) is chosen
+   key_fn that ignores parameter b, maxsize, plain or batch-blocking body, number of functions decorated by ONE
+   decorator object, what kind of value the body returns, call alphabet, history depth) is chosen
    in Init; afterwards there is one action per public operation and the result the property PRESCRIBES for it is
    recorded in `hist`.  TLC enumerates every history up to the depth; harness/check_c13.py replays every history
    into the real decorators and compares result by result ("any" = the property does not prescribe).
 
    The cached function has the parameters (a, b=0, *, c=0) (methods: (self, a, b=0, *, c=0)).  A call is a
-   SPELLING  [i, a, b, c, sa, sb, sc]:  i = instance (0 = plain function), a/b/c = the values, sa/sb/sc = how each
+   SPELLING  [g, i, a, b, c, sa, sb, sc]:  g = which decorated function (the harness creates ONE decorator object,
+   e.g. d = alru_cache(maxsize=2), and applies it to cfg.nf functions: every function has its own reference
+   cache and its own maxsize budget), i = instance (0 = plain function), a/b/c = the values, sa/sb/sc = how each
    is written: "p" positional, "k" keyword, "d" left to its default.  The reference cache NORMALISES the spelling
-   to the bound argument tuple Args(s) = <<i, a, b, c>> and keys on all of it (or on key_fn's result <<i, a, c>>).
-   The body returns a fresh value on every run: <<i, a, b, c, n>> where n counts the runs of the body with exactly
+   to the bound argument tuple Args(s) = <<g, i, a, b, c>> and keys on all of it (or on key_fn's result <<g, i, a, c>>).
+   The body produces a fresh value on every run: <<g, i, a, b, c, n>> where n counts the runs of the body with exactly
    these bound arguments; it raises (carrying the same tuple) when a = 2.  So a hit (old n, no run), a miss (new n,
-   one run) and a value that belongs to another call (other arguments) are all distinguishable.
+   one run) and a value that belongs to another call (other function / arguments) are all distinguishable.
+   cfg.ret says what the body RETURNS: "tuple" = that tuple; "none" / "zero" / "str" / "empty" = the constant
+   None / 0 / "" / () - legitimate results that a cache has to store and serve like any other (hit and miss are then
+   told apart by the number of body runs, which is prescribed for every operation).
 
-   LRU: `lru` is the recency order (least recent first) of the stored keys, `store` their values.
-   Per-instance: the key starts with the instance; Drop garbage-collects instance 2, New creates a new instance 2.
-   alazy_constant: one slot (key <<0>>), refresh time `ltime` (0 = empty / dirtied), logical clock `now` moved by
-   Tick only (the harness scripts asynq.tools.utime); Arm makes the next body run raise.
+   LRU: `lru` is the recency order (least recent first) of the stored keys of all functions, `store` their values;
+   the size bound and the eviction are per function (the g-keys of `lru` are g's own recency order).
+   Per-instance: the key carries the instance; Drop garbage-collects instance 2, New creates a new instance 2.
+   alazy_constant: one slot per function (key <<g>>), refresh time `ltime[g]` (0 = empty / dirtied), logical clock
+   `now` moved by Tick only (the harness scripts asynq.tools.utime); Arm makes the next body run raise.
    Overlapping calls (batch-blocking bodies yielded together): Pair = Begin, Begin, End, End of the reference
    cache - both lookups see the store as it was. *)
 EXTENDS Naturals, Integers, Sequences, FiniteSets, TLC, Json, IOUtils
@@ -32,37 +39,45 @@ VARIABLES cfg, lru, store, cnt, gone, live, now, ltime, armed, hist
 vars == <<cfg, lru, store, cnt, gone, live, now, ltime, armed, hist>>
 
 (* ---------------------------------------------------------------- call alphabets *)
-S(i, a, b, c, sa, sb, sc) == [i |-> i, a |-> a, b |-> b, c |-> c, sa |-> sa, sb |-> sb, sc |-> sc]
+S(g, i, a, b, c, sa, sb, sc) == [g |-> g, i |-> i, a |-> a, b |-> b, c |-> c, sa |-> sa, sb |-> sb, sc |-> sc]
 Valid(s) == /\ (s.sb = "p" => s.sa = "p")       \* b can be positional only after a positional a
             /\ (s.sb = "d" => s.b = 0)          \* a default stands for the value 0
             /\ (s.sc = "d" => s.c = 0)          \* c is keyword-only
-Full(I) ==    \* every spelling of every argument tuple over 2 values each (48 per instance) + the raising call
-  {s \in [i : I, a : {0, 1}, b : {0, 1}, c : {0, 1}, sa : {"p", "k"}, sb : {"p", "k", "d"}, sc : {"k", "d"}] : Valid(s)}
-  \cup {S(i, 2, 0, 0, sa, "d", "d") : i \in I, sa \in {"p", "k"}}
-Mid(I) ==
-  {s \in [i : I, a : {0, 1}, b : {0, 1}, c : {0}, sa : {"p"}, sb : {"p", "k", "d"}, sc : {"d"}] : Valid(s)}
-  \cup {S(i, a, 0, 1, "p", "d", "k") : i \in I, a \in {0, 1}} \cup {S(i, 2, 0, 0, "p", "d", "d") : i \in I}
+Full(G, I) == \* every spelling of every argument tuple over 2 values each (48 per instance) + the raising call
+  {s \in [g : G, i : I, a : {0, 1}, b : {0, 1}, c : {0, 1}, sa : {"p", "k"}, sb : {"p", "k", "d"}, sc : {"k", "d"}] : Valid(s)}
+  \cup {S(g, i, 2, 0, 0, sa, "d", "d") : g \in G, i \in I, sa \in {"p", "k"}}
+Mid(G, I) ==
+  {s \in [g : G, i : I, a : {0, 1}, b : {0, 1}, c : {0}, sa : {"p"}, sb : {"p", "k", "d"}, sc : {"d"}] : Valid(s)}
+  \cup {S(g, i, a, 0, 1, "p", "d", "k") : g \in G, i \in I, a \in {0, 1}} \cup {S(g, i, 2, 0, 0, "p", "d", "d") : g \in G, i \in I}
 Min(I) == CHOOSE x \in I : \A y \in I : x <= y
-Small(I) ==   \* distinct keys only, for the LRU histories: 4 keys + the raising call (+ one call on a 2nd instance)
-  {S(Min(I), a, b, 0, "p", "p", "d") : a \in {0, 1}, b \in {0, 1}} \cup {S(Min(I), 2, 0, 0, "p", "d", "d")}
-  \cup {S(i, 0, 0, 0, "p", "p", "d") : i \in I}
-Tiny(I) ==    \* two spellings of one tuple, a tuple differing in b only (same key under key_fn), another a, the raising call
-  {S(i, 0, 0, 0, "p", "p", "d") : i \in I} \cup {S(i, 0, 0, 0, "p", "k", "d") : i \in I}
-  \cup {S(i, 0, 1, 0, "p", "p", "d") : i \in I} \cup {S(i, 1, 0, 0, "p", "p", "d") : i \in I}
-  \cup {S(i, 2, 0, 0, "p", "d", "d") : i \in I}
-Duo(I) == {S(i, 0, 0, 0, "p", "p", "d") : i \in I} \cup {S(i, 0, 0, 0, "p", "k", "d") : i \in I}
-          \cup {S(i, 2, 0, 0, "p", "d", "d") : i \in I}
+Small(G, I) == \* distinct keys only, for the LRU histories: 4 keys + the raising call (+ one call on a 2nd instance)
+  {S(g, Min(I), a, b, 0, "p", "p", "d") : g \in G, a \in {0, 1}, b \in {0, 1}} \cup {S(g, Min(I), 2, 0, 0, "p", "d", "d") : g \in G}
+  \cup {S(g, i, 0, 0, 0, "p", "p", "d") : g \in G, i \in I}
+Tiny(G, I) == \* two spellings of one tuple, a tuple differing in b only (same key under key_fn), another a, the raising call
+  {S(g, i, 0, 0, 0, "p", "p", "d") : g \in G, i \in I} \cup {S(g, i, 0, 0, 0, "p", "k", "d") : g \in G, i \in I}
+  \cup {S(g, i, 0, 1, 0, "p", "p", "d") : g \in G, i \in I} \cup {S(g, i, 1, 0, 0, "p", "p", "d") : g \in G, i \in I}
+  \cup {S(g, i, 2, 0, 0, "p", "d", "d") : g \in G, i \in I}
+Duo(G, I) == {S(g, i, 0, 0, 0, "p", "p", "d") : g \in G, i \in I} \cup {S(g, i, 0, 0, 0, "p", "k", "d") : g \in G, i \in I}
+             \cup {S(g, i, 2, 0, 0, "p", "d", "d") : g \in G, i \in I}
+Keys3(G, I) == \* three distinct keys per function, no raising call: the budget histories of two functions
+  {S(g, i, 0, 0, 0, "p", "p", "d") : g \in G, i \in I} \cup {S(g, i, 0, 1, 0, "p", "p", "d") : g \in G, i \in I}
+  \cup {S(g, i, 1, 0, 0, "p", "p", "d") : g \in G, i \in I}
 
-Insts(c) == IF c.deco = "inst" THEN {1, 2} ELSE IF c.form = "meth" THEN (IF c.alpha = "full" THEN {1} ELSE {1, 2}) ELSE {0}
-Alpha(c) == CASE c.alpha = "full" -> Full(Insts(c)) [] c.alpha = "mid" -> Mid(Insts(c))
-              [] c.alpha = "small" -> Small(Insts(c)) [] c.alpha = "tiny" -> Tiny(Insts(c))
-              [] c.alpha = "duo" -> Duo(Insts(c)) [] OTHER -> {}
+Funs(c) == 1..c.nf
+Insts(c) == IF c.deco = "inst" THEN (IF c.nf = 2 THEN {1} ELSE {1, 2})
+            ELSE IF c.form = "meth" THEN (IF c.alpha = "full" \/ c.nf = 2 THEN {1} ELSE {1, 2}) ELSE {0}
+Alpha(c) == CASE c.alpha = "full" -> Full(Funs(c), Insts(c)) [] c.alpha = "mid" -> Mid(Funs(c), Insts(c))
+              [] c.alpha = "small" -> Small(Funs(c), Insts(c)) [] c.alpha = "tiny" -> Tiny(Funs(c), Insts(c))
+              [] c.alpha = "duo" -> Duo(Funs(c), Insts(c)) [] c.alpha = "keys3" -> Keys3(Funs(c), Insts(c)) [] OTHER -> {}
 
 (* ---------------------------------------------------------------- configurations *)
-C(deco, form, keyfn, maxsize, body, alpha, pairs, depth, ttl) ==
+CX(deco, form, keyfn, maxsize, body, alpha, pairs, depth, ttl, nf, ret) ==
   [deco |-> deco, form |-> form, keyfn |-> keyfn, maxsize |-> maxsize, body |-> body, alpha |-> alpha,
-   pairs |-> pairs, depth |-> depth, ttl |-> ttl]
+   pairs |-> pairs, depth |-> depth, ttl |-> ttl, nf |-> nf, ret |-> ret]
+C(deco, form, keyfn, maxsize, body, alpha, pairs, depth, ttl) ==      \* one function, tuple-valued body
+  CX(deco, form, keyfn, maxsize, body, alpha, pairs, depth, ttl, 1, "tuple")
 D(q, t) == IF Deep = 1 THEN t ELSE q
+Falsy == {"none", "zero", "str", "empty"}
 AllConfigs ==
   CASE Group = "spell" ->      \* every spelling, shallow
          {C("lru", f, 0, 3, "plain", "full", 0, D(2, 3), 0) : f \in {"fn", "meth"}}
@@ -79,30 +94,44 @@ AllConfigs ==
     [] Group = "overlap" ->    \* batch-blocking bodies, two calls yielded together
          {C("lru", "fn", k, 3, "block", "tiny", 1, D(2, 3), 0) : k \in {0, 1}}
          \cup {C("lru", "meth", 0, 3, "block", "duo", 1, 2, 0), C("inst", "meth", 0, 99, "block", "duo", 1, 2, 0)}
+    [] Group = "shared" ->     \* ONE decorator object applied to two functions: independent caches and budgets
+         {CX("lru", f, 0, m, "plain", "tiny", 0, 3, 0, 2, "tuple") : f \in {"fn", "meth"}, m \in 1..2}
+         \cup {CX("lru", "fn", 0, 2, "plain", "keys3", 0, D(4, 5), 0, 2, "tuple")}
+         \cup {CX("lru", "fn", 1, 2, "plain", "tiny", 0, 3, 0, 2, "tuple")}
+         \cup {CX("inst", "meth", 0, 99, "plain", "tiny", 0, 3, 0, 2, "tuple")}
+         \cup {CX("lazy", "fn", 0, 1, "plain", "none", 0, D(4, 5), t, 2, "tuple") : t \in {0, 4}}
+    [] Group = "falsy" ->      \* bodies whose legitimate result is None / 0 / "" / ()
+         {CX("lru", f, 0, 2, "plain", "tiny", 0, 3, 0, 1, r) : f \in {"fn", "meth"}, r \in Falsy}
+         \cup {CX("inst", "meth", 0, 99, b, "duo", 0, 3, 0, 1, r) : b \in {"plain", "block"}, r \in Falsy}
+         \cup {CX("lazy", "fn", 0, 1, "plain", "none", 0, D(4, 5), t, 1, r) : t \in {0, 4}, r \in Falsy}
     [] OTHER -> {}
 Configs == {c \in AllConfigs : /\ (OnlyForm = "all" \/ c.form = OnlyForm)
                                /\ (OnlyKeyfn = "all" \/ ToString(c.keyfn) = OnlyKeyfn)}
 
 (* ---------------------------------------------------------------- the reference cache *)
-Args(s) == <<s.i, s.a, s.b, s.c>>
-Key(s) == IF cfg.keyfn = 1 THEN <<s.i, s.a, s.c>> ELSE Args(s)       \* key_fn ignores b
-KeyOfVal(v) == IF cfg.keyfn = 1 THEN <<v[1], v[2], v[4]>> ELSE <<v[1], v[2], v[3], v[4]>>
+Args(s) == <<s.g, s.i, s.a, s.b, s.c>>
+Key(s) == IF cfg.keyfn = 1 THEN <<s.g, s.i, s.a, s.c>> ELSE Args(s)       \* key_fn ignores b
+KeyOfVal(v) == IF cfg.keyfn = 1 THEN <<v[1], v[2], v[3], v[5]>> ELSE <<v[1], v[2], v[3], v[4], v[5]>>
 Raises(s) == s.a = 2
-AllArgs == {<<i, a, b, c>> : i \in 0..2, a \in 0..2, b \in 0..1, c \in 0..1}
-Amb == <<0, 0, 0, 0, 0>>          \* "some value is stored, the property does not say which" (n = 0)
+AllArgs == {<<g, i, a, b, c>> : g \in 1..2, i \in 0..2, a \in 0..2, b \in 0..1, c \in 0..1}
+Amb == <<0, 0, 0, 0, 0, 0>>       \* "some value is stored, the property does not say which" (n = 0)
 MaxSize == IF cfg.deco = "lru" THEN cfg.maxsize ELSE 99
 Range(f) == {f[x] : x \in DOMAIN f}
 Touch(l, k) == Append(SelectSeq(l, LAMBDA x : x # k), k)
-ResOf(v) == IF v[5] = 0 THEN <<"any">> ELSE <<"val">> \o v
+OfFun(l, g) == SelectSeq(l, LAMBDA x : x[1] = g)                     \* g's own recency order
+Shown(v) == IF cfg.ret = "tuple" THEN <<"val">> \o v ELSE <<"val", cfg.ret>>   \* what the caller sees of value v
+ResOf(v) == IF v[6] = 0 THEN <<"any">> ELSE Shown(v)
 MissTag(k) == IF k \in DOMAIN gone THEN gone[k] ELSE "new"
 Put(f, k, v) == [x \in DOMAIN f \cup {k} |-> IF x = k THEN v ELSE f[x]]
 Without(f, ks) == [x \in DOMAIN f \ ks |-> f[x]]
 
-(* state after storing v under k, starting from recency order l / store st / removal reasons g *)
-InsLru(l, k) == LET l2 == Touch(l, k) IN IF Len(l2) > MaxSize THEN Tail(l2) ELSE l2
-InsStore(l, st, k, v) == LET l2 == Touch(l, k) IN
-                         IF Len(l2) > MaxSize THEN Without(Put(st, k, v), {Head(l2)}) ELSE Put(st, k, v)
-InsGone(l, g, k) == LET l2 == Touch(l, k) IN IF Len(l2) > MaxSize THEN Put(g, Head(l2), "evicted") ELSE g
+(* state after storing v under k, starting from recency order l / store st / removal reasons g:
+   if function k[1] now holds more than MaxSize keys, its least recently used key goes *)
+Over(l, k) == Len(OfFun(Touch(l, k), k[1])) > MaxSize
+Victim(l, k) == Head(OfFun(Touch(l, k), k[1]))
+InsLru(l, k) == IF Over(l, k) THEN SelectSeq(Touch(l, k), LAMBDA x : x # Victim(l, k)) ELSE Touch(l, k)
+InsStore(l, st, k, v) == IF Over(l, k) THEN Without(Put(st, k, v), {Victim(l, k)}) ELSE Put(st, k, v)
+InsGone(l, gn, k) == IF Over(l, k) THEN Put(gn, Victim(l, k), "evicted") ELSE gn
 
 Rec(op, arg, calls, res, runs, tag) == [op |-> op, arg |-> arg, calls |-> calls, res |-> res, runs |-> runs, tag |-> tag]
 Usable(s) == s \in Alpha(cfg) /\ (s.i = 0 \/ s.i \in live)
@@ -110,7 +139,7 @@ Usable(s) == s \in Alpha(cfg) /\ (s.i = 0 \/ s.i \in live)
 Init == /\ cfg \in Configs
         /\ lru = <<>> /\ store = [x \in {} |-> Amb] /\ gone = [x \in {} |-> "new"]
         /\ cnt = [x \in AllArgs |-> 0]
-        /\ live = {1, 2} /\ now = 1000 /\ ltime = 0 /\ armed = FALSE /\ hist = <<>>
+        /\ live = {1, 2} /\ now = 1000 /\ ltime = [g \in 1..2 |-> 0] /\ armed = FALSE /\ hist = <<>>
 
 (* one call: lookup on the normalised key; hit => stored value, recency refreshed, body not run;
    miss => the body runs once, its fresh value is returned and stored (LRU eviction) unless it raised *)
@@ -127,7 +156,7 @@ Call(s) ==
              THEN /\ UNCHANGED <<lru, store, gone>>
                   /\ hist' = Append(hist, Rec("call", 0, <<s>>, <<(<<"err">> \o v)>>, 1, <<"raise">>))
              ELSE /\ lru' = InsLru(lru, k) /\ store' = InsStore(lru, store, k, v) /\ gone' = InsGone(lru, gone, k)
-                  /\ hist' = Append(hist, Rec("call", 0, <<s>>, <<(<<"val">> \o v)>>, 1, <<MissTag(k)>>))
+                  /\ hist' = Append(hist, Rec("call", 0, <<s>>, <<Shown(v)>>, 1, <<MissTag(k)>>))
   /\ UNCHANGED <<cfg, live, now, ltime, armed>>
 
 (* two calls yielded together, bodies blocking on one batch: both lookups happen before either body finishes.
@@ -144,8 +173,8 @@ Pair(s1, s2) ==
          n2 == IF Args(s1) = Args(s2) /\ ~h1 THEN n1 + 1 ELSE cnt[Args(s2)] + 1
          v1 == Args(s1) \o <<n1>>
          v2 == Args(s2) \o <<n2>>
-         r1 == IF h1 THEN ResOf(store[k1]) ELSE IF Raises(s1) THEN <<"err">> \o v1 ELSE <<"val">> \o v1
-         r2 == IF h2 THEN ResOf(store[k2]) ELSE IF Raises(s2) THEN <<"err">> \o v2 ELSE <<"val">> \o v2
+         r1 == IF h1 THEN ResOf(store[k1]) ELSE IF Raises(s1) THEN <<"err">> \o v1 ELSE Shown(v1)
+         r2 == IF h2 THEN ResOf(store[k2]) ELSE IF Raises(s2) THEN <<"err">> \o v2 ELSE Shown(v2)
          t1 == IF h1 THEN "hit" ELSE IF Raises(s1) THEN "raise" ELSE MissTag(k1)
          t2 == IF h2 THEN "hit" ELSE IF Raises(s2) THEN "raise" ELSE MissTag(k2)
          put1 == ~h1 /\ ~Raises(s1)
@@ -155,7 +184,7 @@ Pair(s1, s2) ==
          lc == IF put1 THEN Touch(lb, k1) ELSE lb
          ld == IF put2 THEN Touch(lc, k2) ELSE lc
      IN
-     /\ Len(ld) <= MaxSize
+     /\ \A g \in 1..2 : Len(OfFun(ld, g)) <= MaxSize
      /\ cnt' = [x \in AllArgs |-> IF x = Args(s2) /\ ~h2 THEN n2 ELSE IF x = Args(s1) /\ ~h1 THEN n1 ELSE cnt[x]]
      /\ lru' = ld /\ UNCHANGED gone
      /\ IF k1 = k2 /\ ~h1
@@ -168,41 +197,41 @@ Pair(s1, s2) ==
 
 (* instance 2 is garbage-collected: its cache vanishes.  Prescribed result: the decorator holds caches for at most
    |live| instances afterwards (compared only if the implementation exposes its per-instance table). *)
-Drop == /\ cfg.deco = "inst" /\ Len(hist) < cfg.depth /\ 2 \in live
-        /\ LET dead == {k \in DOMAIN store : k[1] = 2} IN
+Drop == /\ cfg.deco = "inst" /\ cfg.nf = 1 /\ Len(hist) < cfg.depth /\ 2 \in live
+        /\ LET dead == {k \in DOMAIN store : k[2] = 2} IN
            /\ live' = {1}
-           /\ lru' = SelectSeq(lru, LAMBDA k : k[1] # 2)
+           /\ lru' = SelectSeq(lru, LAMBDA k : k[2] # 2)
            /\ store' = Without(store, dead)
            /\ gone' = [x \in DOMAIN gone \cup dead |-> IF x \in dead THEN "dropped" ELSE gone[x]]
         /\ hist' = Append(hist, Rec("drop", 2, <<>>, <<(<<"le", 1>>)>>, 0, <<"drop">>))
         /\ UNCHANGED <<cfg, cnt, now, ltime, armed>>
-New == /\ cfg.deco = "inst" /\ Len(hist) < cfg.depth /\ 2 \notin live
+New == /\ cfg.deco = "inst" /\ cfg.nf = 1 /\ Len(hist) < cfg.depth /\ 2 \notin live
        /\ live' = {1, 2}
        /\ hist' = Append(hist, Rec("new", 2, <<>>, <<(<<"ok">>)>>, 0, <<"new">>))
        /\ UNCHANGED <<cfg, lru, store, cnt, gone, now, ltime, armed>>
 
-(* alazy_constant *)
-LZ == <<0>>
-LArgs == <<0, 0, 0, 0>>
-LValid == ltime # 0 /\ (cfg.ttl = 0 \/ now - ltime < cfg.ttl)
-LCall == /\ cfg.deco = "lazy" /\ Len(hist) < cfg.depth
-         /\ IF LValid
-            THEN /\ UNCHANGED <<store, cnt, ltime, armed, gone>>
-                 /\ hist' = Append(hist, Rec("lcall", 0, <<>>, <<ResOf(store[LZ])>>, 0, <<"hit">>))
-            ELSE LET n == cnt[LArgs] + 1
-                     v == LArgs \o <<n>>
-                     why == IF ltime # 0 THEN "expired" ELSE MissTag(LZ) IN
-                 /\ cnt' = [cnt EXCEPT ![LArgs] = n]
-                 /\ IF armed
-                    THEN /\ armed' = FALSE /\ UNCHANGED <<store, ltime, gone>>     \* a raise is not cached
-                         /\ hist' = Append(hist, Rec("lcall", 0, <<>>, <<(<<"err">> \o v)>>, 1, <<"raise">>))
-                    ELSE /\ store' = Put(store, LZ, v) /\ ltime' = now /\ UNCHANGED <<armed, gone>>
-                         /\ hist' = Append(hist, Rec("lcall", 0, <<>>, <<(<<"val">> \o v)>>, 1, <<why>>))
-         /\ UNCHANGED <<cfg, lru, live, now>>
-Dirty == /\ cfg.deco = "lazy" /\ Len(hist) < cfg.depth
-         /\ ltime' = 0 /\ gone' = Put(gone, LZ, "dirty")
-         /\ hist' = Append(hist, Rec("dirty", 0, <<>>, <<(<<"ok">>)>>, 0, <<"dirty">>))
-         /\ UNCHANGED <<cfg, lru, store, cnt, live, now, armed>>
+(* alazy_constant: constant number g *)
+LZ(g) == <<g>>
+LArgs(g) == <<g, 0, 0, 0, 0>>
+LValid(g) == ltime[g] # 0 /\ (cfg.ttl = 0 \/ now - ltime[g] < cfg.ttl)
+LCall(g) == /\ cfg.deco = "lazy" /\ Len(hist) < cfg.depth
+            /\ IF LValid(g)
+               THEN /\ UNCHANGED <<store, cnt, ltime, armed, gone>>
+                    /\ hist' = Append(hist, Rec("lcall", g, <<>>, <<ResOf(store[LZ(g)])>>, 0, <<"hit">>))
+               ELSE LET n == cnt[LArgs(g)] + 1
+                        v == LArgs(g) \o <<n>>
+                        why == IF ltime[g] # 0 THEN "expired" ELSE MissTag(LZ(g)) IN
+                    /\ cnt' = [cnt EXCEPT ![LArgs(g)] = n]
+                    /\ IF armed
+                       THEN /\ armed' = FALSE /\ UNCHANGED <<store, ltime, gone>>     \* a raise is not cached
+                            /\ hist' = Append(hist, Rec("lcall", g, <<>>, <<(<<"err">> \o v)>>, 1, <<"raise">>))
+                       ELSE /\ store' = Put(store, LZ(g), v) /\ ltime' = [ltime EXCEPT ![g] = now] /\ UNCHANGED <<armed, gone>>
+                            /\ hist' = Append(hist, Rec("lcall", g, <<>>, <<Shown(v)>>, 1, <<why>>))
+            /\ UNCHANGED <<cfg, lru, live, now>>
+Dirty(g) == /\ cfg.deco = "lazy" /\ Len(hist) < cfg.depth
+            /\ ltime' = [ltime EXCEPT ![g] = 0] /\ gone' = Put(gone, LZ(g), "dirty")
+            /\ hist' = Append(hist, Rec("dirty", g, <<>>, <<(<<"ok">>)>>, 0, <<"dirty">>))
+            /\ UNCHANGED <<cfg, lru, store, cnt, live, now, armed>>
 Tick == /\ cfg.deco = "lazy" /\ Len(hist) < cfg.depth
         /\ now' = now + 3
         /\ hist' = Append(hist, Rec("tick", 3, <<>>, <<(<<"ok">>)>>, 0, <<"tick">>))
@@ -214,37 +243,44 @@ Arm == /\ cfg.deco = "lazy" /\ Len(hist) < cfg.depth /\ ~armed
 
 Next == \/ \E s \in Alpha(cfg) : Call(s)
         \/ (cfg.pairs = 1 /\ \E s1, s2 \in Alpha(cfg) : Pair(s1, s2))
-        \/ Drop \/ New \/ LCall \/ Dirty \/ Tick \/ Arm
+        \/ Drop \/ New \/ Tick \/ Arm
+        \/ \E g \in 1..cfg.nf : LCall(g) \/ Dirty(g)
 Spec == Init /\ [][Next]_vars
 
 (* ---------------------------------------------------------------- the property, on the model *)
-Last == hist[Len(hist)]
 StoreMatchesLru == cfg.deco # "lazy" => /\ DOMAIN store = Range(lru)
                                         /\ \A p, q \in 1..Len(lru) : p # q => lru[p] # lru[q]
-SizeBound == Len(lru) <= MaxSize /\ Cardinality(DOMAIN store) <= MaxSize
-NeverShare ==       \* a stored value was computed from arguments that normalise to its key
+SizeBound ==        \* per decorated function, also when one decorator object decorated both
+  \A g \in 1..2 : Len(OfFun(lru, g)) <= MaxSize /\ Cardinality({k \in DOMAIN store : k[1] = g}) <= MaxSize
+NeverShare ==       \* a stored value was computed by the key's function from arguments that normalise to the key
   cfg.deco # "lazy" => \A k \in DOMAIN store : store[k] # Amb => KeyOfVal(store[k]) = k
-ReturnedOwn ==      \* every returned value was computed from arguments equal to the call's on every key parameter
-  \A j \in 1..Len(hist) : hist[j].op \in {"call", "pair"} =>
+ReturnedOwn ==      \* every returned value was computed by the called function from arguments equal to the call's on every key parameter
+  cfg.ret = "tuple" => \A j \in 1..Len(hist) : hist[j].op \in {"call", "pair"} =>
      \A q \in 1..Len(hist[j].calls) : hist[j].res[q][1] = "val" =>
-        KeyOfVal(SubSeq(hist[j].res[q], 2, 6)) = Key(hist[j].calls[q])
-RaiseNotCached == \A k \in DOMAIN store : cfg.deco # "lazy" => k[2] # 2
-InstanceGone == cfg.deco = "inst" => \A k \in DOMAIN store : k[1] \in live
-NoTtlBoundary == cfg.deco = "lazy" /\ cfg.ttl # 0 /\ ltime # 0 => now - ltime # cfg.ttl
-HitRunsNothing ==   \* a hit runs no body; a miss runs it exactly once (single calls)
+        KeyOfVal(SubSeq(hist[j].res[q], 2, 7)) = Key(hist[j].calls[q])
+RaiseNotCached == \A k \in DOMAIN store : cfg.deco # "lazy" => k[3] # 2
+InstanceGone == cfg.deco = "inst" => \A k \in DOMAIN store : k[2] \in live
+NoTtlBoundary == cfg.deco = "lazy" /\ cfg.ttl # 0 => \A g \in 1..2 : ltime[g] # 0 => now - ltime[g] # cfg.ttl
+HitRunsNothing ==   \* a hit runs no body; a miss runs it exactly once (single calls), whatever the stored value is
   [][Len(hist') > Len(hist) /\ hist'[Len(hist')].op \in {"call", "lcall"} =>
        LET r == hist'[Len(hist')]
            ran == \E x \in AllArgs : cnt'[x] # cnt[x] IN
        /\ (r.tag[1] = "hit" <=> ~ran) /\ (r.tag[1] = "hit" <=> r.runs = 0)
        /\ (r.tag[1] # "hit" => r.runs = 1 /\ Cardinality({x \in AllArgs : cnt'[x] # cnt[x]}) = 1)]_vars
-OneRecomputation == \* lazy constant: two calls in a row -> the second is a hit unless the first raised
+OneRecomputation == \* lazy constant: two calls of one constant in a row -> the second is a hit unless the first raised
   cfg.deco = "lazy" => \A j \in 1..(Len(hist) - 1) :
-     hist[j].op = "lcall" /\ hist[j].tag[1] # "raise" /\ hist[j + 1].op = "lcall" => hist[j + 1].runs = 0
-EvictsLeastRecent ==  \* the evicted key is the head of the recency order; a hit or store moves the key to the end
+     hist[j].op = "lcall" /\ hist[j].tag[1] # "raise" /\ hist[j + 1].op = "lcall" /\ hist[j + 1].arg = hist[j].arg
+        => hist[j + 1].runs = 0
+EvictsLeastRecent ==  \* the evicted key is the least recently used key OF THE SAME FUNCTION; a hit or store moves the key to the end
   [][Len(hist') > Len(hist) /\ hist'[Len(hist')].op = "call" =>
        LET k == Key(hist'[Len(hist')].calls[1]) IN
        /\ (k \in DOMAIN store' => lru'[Len(lru')] = k)
-       /\ \A x \in DOMAIN store : x \notin DOMAIN store' => (Len(lru) = MaxSize /\ x = lru[1])]_vars
+       /\ \A x \in DOMAIN store : x \notin DOMAIN store' =>
+             (x[1] = k[1] /\ Len(OfFun(lru, k[1])) = MaxSize /\ x = Head(OfFun(lru, k[1])))]_vars
+OtherFunctionUntouched ==  \* a call of one function never changes what the other function has cached
+  [][Len(hist') > Len(hist) /\ hist'[Len(hist')].op = "call" =>
+       LET g == hist'[Len(hist')].calls[1].g IN
+       \A x \in DOMAIN store : x[1] # g => (x \in DOMAIN store' /\ store'[x] = store[x])]_vars
 
 Export == (Len(hist) = cfg.depth) => PrintT(ToJson([cfg |-> cfg, h |-> hist]))
 =============================================================================
